@@ -26,14 +26,25 @@ def _cls(c, name):
 
 @contract(P, "Poisson", [(D, f"Poisson.{m}") for m in ("pmf", "logpmf", "logcdf", "mean", "variance")])
 def poisson(c):
+    """rate ranges over everything Poisson.validate accepts - including 0, the degenerate distribution: log is taken in
+    definedness mode (log of a non-positive number is 'not a finite number', which propagates like NaN), so 0 * log(0) is
+    a violation of "pmf(0; 0) = 1", not an unconstrained real"""
+    from pyvc import tensor as tz
+
+    tz.LOG_DEFINEDNESS[0] = True
     kk, lam = c.pw("k"), c.pw("lam")
-    c.require(kk.f >= 0, lam.f > 0)
+    c.require(kk.f >= 0, lam.f >= 0)
     C = _cls(c, "Poisson")
     logpmf = c.call(c.getattr(C, "logpmf"), kk, lam)
     pmf = c.call(c.getattr(C, "pmf"), kk, lam)
+    finite = z3.Or(lam.f > 0, kk.f == 0)  # k > 0 at rate 0 has probability 0: log-density -inf
     std = z3.If(kk.f == 0, 0, kk.f * f_log(lam.f)) - lam.f - f_lgamma(kk.f + 1)  # log( lam^k e^-lam / k! )
-    c.ensure("logpmf_is_standard_density", logpmf.f == std)
-    c.ensure("pmf_is_exp_logpmf", pmf.f == f_exp(logpmf.f))
+    nf = lambda t: t.nan_at() if t.nan is not None else z3.BoolVal(False)  # noqa: E731
+    c.ensure("logpmf_is_a_finite_number_wherever_the_density_is_positive", z3.Implies(finite, z3.Not(nf(logpmf))))
+    c.ensure("logpmf_is_standard_density", z3.Implies(finite, logpmf.f == std))
+    c.ensure("logpmf_is_not_finite_where_the_density_is_zero", z3.Implies(z3.Not(finite), nf(logpmf)))
+    c.ensure("pmf_is_exp_logpmf", z3.Implies(finite, z3.And(z3.Not(nf(pmf)), pmf.f == f_exp(logpmf.f))))
+    c.ensure("degenerate_rate_zero_puts_all_mass_on_zero", z3.Implies(z3.And(lam.f == 0, kk.f == 0), z3.And(logpmf.f == -f_lgamma(z3.RealVal(1)), z3.Not(nf(pmf)))))
     cdf = c.call(c.getattr(C, "cdf"), kk, lam)
     logcdf = c.outcome(c.getattr(C, "logcdf"), kk, lam)
     c.expect_return(logcdf)
@@ -41,6 +52,7 @@ def poisson(c):
     c.ensure("mean", c.call(c.getattr(C, "mean"), lam).f == lam.f)
     c.ensure("variance", c.call(c.getattr(C, "variance"), lam).f == lam.f)
     c.canary("canary_rate_normaliser", logpmf.f == z3.If(kk.f == 0, 0, kk.f * f_log(lam.f)) - lam.f - f_lgamma(lam.f + 1))
+    c.canary("canary_finite_everywhere", z3.Not(nf(logpmf)))
 
 
 SQRT_TAU = num(math.sqrt(math.tau))
@@ -133,6 +145,7 @@ ASSUMPTIONS = [
 ]
 
 MUTANTS = [
+    dict(file=D, func="Poisson.logpmf", old="torch.special.xlogy(support, rate)", new="support * torch.log(rate)", contracts=["Poisson"], name="seed C20d: 0 * log(0) at the degenerate rate"),
     dict(file=D, func="LogNormal.params_mv", old="loc = torch.log(meansq / torch.sqrt(meansq + variance))", new="loc = torch.log(meansq / torch.sqrt(meansq - variance))", contracts=["LogNormal.params_mv"]),
     dict(file=D, func="LogNormal.params_mv", old="scale = torch.sqrt(torch.log(1 + variance / meansq))", new="scale = torch.log(1 + variance / meansq)", contracts=["LogNormal.params_mv"]),
     dict(file=D, func="LogNormal.logcdf", old="torch.log(cls.cdf(support, loc, scale))", new="torch.log(cls.logcdf(support, loc, scale))", contracts=["LogNormal"], name="D20 regression: LogNormal.logcdf self-recursion"),
